@@ -55,3 +55,179 @@ MANIFEST = {
              "Observation: a Rejected/NotAdded change has already updated the instance state (recorded under C22)."),
     "technique": "Coq proof (limit invariant by induction over operation histories; exact case analysis of add_reader_change) + differential correspondence",
 }
+
+
+# ====================================================================== writer clause
+# DataWriterEntity::write_w_timestamp (+ the caller's KEEP_LAST step) against Cache/WriterModel.v,
+# harness bin c19w; evaluated with the C19W_* functions of Cache/WriterCorr.v.
+from vlib import core as _core  # noqa: E402
+
+CORR_MODULES = ["Cache.ReaderCorr", "Cache.WriterCorr"]
+W_KNOWN = {1: "C19-failed-write-registers-instance"}
+TRUSTED = list(_reader.TRUSTED) + [
+    "theories/Cache/WriterModel.v is a hand transcription of DataWriterEntity::write_w_timestamp "
+    "(data_writer_entity.rs:70-168) and of the KEEP_LAST step of its caller (writer_methods.rs:355-405, branch "
+    "without the wait for acknowledgements); harness c19w.rs repeats that caller step on the real entity and "
+    "uses a recording mock for the transport writer"]
+ASSUMPTIONS = list(_reader.ASSUMPTIONS) + [
+    "writer: limits that are set are >= 0, depth < 2^31, sequence numbers stay below 2^63; the reliable "
+    "writer's wait for acknowledgements before the KEEP_LAST replacement is not modelled"]
+
+
+def w_lim(x):
+    return "None" if x < 0 else "(Some %d)" % x
+
+
+def w_qos_term(q):
+    return "(mkWQ %s %s %s %s %s)" % ("None" if q[0] == 0 else "(Some %d)" % q[0], w_lim(q[1]), w_lim(q[2]),
+                                      w_lim(q[3]), w_lim(q[4]))
+
+
+def w_case_line(c):
+    q, ops = c
+    return "Q " + " ".join(str(x) for x in q) + " ; " + " ; ".join(n + " " + " ".join(str(x) for x in v) for n, v in ops)
+
+
+def w_op_term(o):
+    n, v = o
+    if n == "P":
+        return "WPre %d" % v[0]
+    return "%s %d %d %d %d" % ("WWrite" if n == "W" else "WApp", v[0], v[1], v[2], v[3])
+
+
+def w_case_term(c, out):
+    q, ops = c
+    if out.startswith("PANIC") or out.startswith("ABORT") or out.startswith("HANG"):
+        return None
+    toks = [t.strip() for t in out.split("|")]
+    if len(toks) != len(ops) + 1:
+        return None
+    try:
+        evs = []
+        for t in toks[:-1]:
+            f = t.split()
+            assert f[1] == "n"
+            ni = int(f[2])
+            snap = ["(%s, %s)" % (f[3 + 2 * i], f[4 + 2 * i]) for i in range(ni)]
+            rest = f[3 + 2 * ni:]
+            assert rest[0] == "c" and rest[2] == "s"
+            evs.append("mkWev %s [%s] %s %s" % (f[0], "; ".join(snap), rest[1], rest[3]))
+        f = toks[-1].split()
+        assert f[0] == "F" and f[1] == "n"
+        ni = int(f[2])
+        k = 3
+        insts = []
+        for _ in range(ni):
+            h, lwt, ln = int(f[k]), int(f[k + 1]), int(f[k + 2])
+            seqs = f[k + 3:k + 3 + ln]
+            k += 3 + ln
+            insts.append("mkWI %d %s [%s]" % (h, w_lim(lwt), "; ".join(seqs)))
+        assert f[k] == "C"
+        nc = int(f[k + 1])
+        k += 2
+        chs = []
+        for _ in range(nc):
+            chs.append("mkCh %s %s %s %s" % tuple(f[k:k + 4]))
+            k += 4
+        assert f[k] == "S"
+        fs = f[k + 1]
+    except (IndexError, ValueError, AssertionError):
+        return None
+    return "mkWr %s [%s] [%s] [%s] [%s] %s" % (w_qos_term(q), "; ".join(w_op_term(o) for o in ops), "; ".join(evs),
+                                               "; ".join(insts), "; ".join(chs), fs)
+
+
+def w_gen_case(r):
+    hist = r.choice([0, 0, 1, 2, 3]) if r.random() < 0.95 else r.choice([4, 5])
+    mspi = r.choice([-1, 1, 2, 3, 4]) if r.random() < 0.7 else -1
+    if hist and mspi > 0 and mspi < hist and r.random() < 0.8:
+        mspi = hist                      # mostly consistent QoS, sometimes depth > mspi
+    ms = r.choice([-1, 1, 2, 3, 4, 6]) if r.random() < 0.7 else -1
+    if ms > 0 and mspi > 0 and ms < mspi and r.random() < 0.8:
+        ms = mspi
+    mi = r.choice([-1, 1, 2, 3]) if r.random() < 0.6 else -1
+    if r.random() < 0.03:
+        ms, mi, mspi = r.choice([(0, -1, -1), (-1, 0, -1), (-1, -1, 0)])
+    life = -1 if r.random() < 0.7 else r.choice([0, 5, 10, 50])
+    q = [hist, ms, mi, mspi, life]
+    ninst = r.choice([1, 2, 3, 4])
+    nops = r.randint(1, 12) if r.random() < 0.7 else r.randint(13, 30)
+    raw = r.random() < 0.25              # entity-level cases: W and P separately
+    ops, data, clock = [], 100, 10
+    for _ in range(nops):
+        clock += r.randint(0, 8)
+        data += 1
+        h = r.randint(1, ninst)
+        ts = clock if r.random() < 0.7 else r.randint(0, clock + 10)
+        now = clock if r.random() < 0.6 else clock + r.randint(0, 60)
+        x = r.random()
+        if raw and x < 0.2:
+            ops.append(("P", [h]))
+        elif raw and x < 0.7:
+            ops.append(("W", [h, data, ts, now]))
+        else:
+            ops.append(("A", [h, data, ts, now]))
+    return (q, ops)
+
+
+def w_corpus():
+    return [_reader.parse_line(x) for x in [
+        # a write refused for max_samples leaves instance 2 registered; instance 3 is then refused for max_instances
+        "Q 0 1 2 -1 -1 ; A 1 101 10 10 ; A 2 102 20 20 ; A 3 103 30 30",
+        # KEEP_LAST 2 = max_samples_per_instance: the oldest is replaced, never OutOfResources
+        "Q 2 -1 -1 2 -1 ; A 1 101 10 10 ; A 1 102 20 20 ; A 1 103 30 30 ; A 1 104 40 40",
+        # the entity alone relies on its caller: raw writes exceed max_samples_per_instance
+        "Q 2 -1 -1 2 -1 ; W 1 101 10 10 ; W 1 102 20 20 ; W 1 103 30 30",
+        # each limit once (KEEP_ALL)
+        "Q 0 3 2 2 -1 ; A 1 101 10 10 ; A 1 102 20 20 ; A 1 103 30 30 ; A 2 104 40 40 ; A 2 105 50 50 ; A 3 106 60 60",
+        # a sample already expired when written is counted but not handed to the transport
+        "Q 0 -1 -1 2 5 ; A 1 101 10 10 ; A 1 102 10 30 ; A 1 103 30 30",
+        # inconsistent QoS depth 3 > max_samples_per_instance 2
+        "Q 3 -1 -1 2 -1 ; A 1 101 10 10 ; A 1 102 20 20 ; A 1 103 30 30",
+    ]]
+
+
+def extra(ctx, binary):
+    wbin, out = _core.cargo_build(ctx, bin="c19w")
+    if wbin is None:
+        ctx.broken.append("writer harness c19w does not build against the current /repo tree: " + out[-600:])
+        return
+    n = {"quick": 1500, "thorough": 20000}.get(ctx.tier, 1500)
+    cases = w_corpus() + [w_gen_case(ctx.rng) for _ in range(n)]
+    lines = [w_case_line(c) for c in cases]
+    outs = _core.run_harness(wbin, "c19w", lines)
+    terms, usable = [], []
+    for i, (c, o) in enumerate(zip(cases, outs)):
+        t = w_case_term(c, o)
+        if t is None:
+            ctx.violations.append(("impl-crash", "writer: implementation output %r on case %s" % (o, lines[i]),
+                                   {"case": lines[i], "impl_output": o, "harness": "c19w"}))
+            continue
+        terms.append(t)
+        usable.append(i)
+    model_bad, oracle_bad, err = _core.coq_eval_cases(ctx, "Cache.WriterCorr", "C19W", "Wr_case", terms, tag="writer")
+    if err:
+        ctx.broken.append("writer correspondence evaluation failed: " + err[-600:])
+    known = _core.known_ids(ctx.pid)
+    bad = []
+    for j, cls in oracle_bad:
+        fid = W_KNOWN.get(cls)
+        if fid is not None and fid in known:
+            ctx.known_seen.setdefault(fid, lines[usable[j]])
+        else:
+            bad.append(usable[j])
+    for i in bad[:5]:
+        ctx.violations.append(("oracle", "writer: property oracle rejects implementation behaviour on case: %s -> %s"
+                               % (lines[i], outs[i]), {"case": lines[i], "harness": "c19w", "impl_output": outs[i]}))
+    if model_bad and not bad:
+        i0 = usable[model_bad[0]]
+        ctx.broken.append("correspondence C19W: implementation differs from model on %d case(s), e.g. %s -> %s"
+                          % (len(model_bad), lines[i0], outs[i0]))
+    ctx.cov["writer_evaluations"] = len(cases)
+    ctx.cov["writer_model_disagreements"] = len(model_bad)
+    ctx.cov["writer_refused_writes"] = sum(o.count("| 1 n") + o.startswith("1 n") for o in outs)
+    ctx.cov["writer_known_class_cases"] = len(oracle_bad) - len(bad)
+    ctx.cov["writer_rule"] = ("a case is a writer QoS (KEEP_ALL or KEEP_LAST 1-5, max_samples/max_instances/"
+                              "max_samples_per_instance unlimited or 0-6, lifespan infinite or 0-50 ns) plus 1-30 "
+                              "operations over 1-4 instances on a fresh real DataWriterEntity: A = caller's KEEP_LAST step "
+                              "+ write_w_timestamp, in a quarter of the cases also the two steps separately")
